@@ -6,7 +6,7 @@ from __future__ import annotations
 from vp_common import Atom, Ctx, line, run_driver
 
 PROP = 'C15'
-RULE = ('update streams of (item, weight 0..50) over ints, strings and mixed int+string item sets (strings spelling the ints, NUL / '
+RULE = ('update streams of (item, weight 0..50; in 30 % of the cases weights from {127,128,255,256,32767,32768,40000,65535,65536,10^6,2^24+1,10^8} with the total kept below 2^31) over ints, strings and mixed int+string item sets (strings spelling the ints, NUL / '
         'space suffixes), fed by add or (40%) by one batch_add, or (20% of the cases) by an interleaving of add / batch_add / query steps whose every answer is judged against the weight added so far; depth 1..8, width mostly 1..8 (forced collisions) '
         'and up to 2^15; fresh numpy seeds; matrix + all queries compared after random prefixes. Counter: item streams '
         'with bounds 0..10. Non-trivial = stream with >=2 distinct items that collide in at least one row (cms) / '
@@ -14,6 +14,9 @@ RULE = ('update streams of (item, weight 0..50) over ints, strings and mixed int
 ASSUMPTIONS = ['numba hash(x) and the seed arithmetic inside cms_hash are externals: locations are taken from the real cms_hash and '
                'checked to lie in [0,width) and to be a function of (item,row)',
                'total weight < 2^31 (int32 cells; explicit hypothesis of the theorems)']
+
+
+BIG_WEIGHTS = [1, 1, 127, 128, 255, 256, 32767, 32768, 40000, 65535, 65536, 10 ** 6, 2 ** 24 + 1, 10 ** 8]
 
 
 def gen_cms(rng, thorough):
@@ -37,8 +40,18 @@ def gen_cms(rng, thorough):
         items = rng.sample(alphabet, min(nitems, len(alphabet)))
     n = rng.choice([0, 1, 2, 5, 20, 60] + ([300] if thorough else []))
     batch = rng.random() < 0.4
-    d0 = rng.choice([1, 1, 1, 2, 7, 0])
-    ops = [(rng.randrange(len(items)), d0 if batch else rng.choice([0, 1, 1, 1, 2, 7, 50])) for _ in range(n)]
+    big = rng.random() < 0.3              # weights around the limits of narrower cell types; the total stays below 2^31
+    pool = BIG_WEIGHTS if big else [0, 1, 1, 1, 2, 7, 50]
+    d0 = rng.choice(BIG_WEIGHTS if big else [1, 1, 1, 2, 7, 0])
+    ops, total = [], 0
+    for _ in range(n):
+        w = d0 if batch else rng.choice(pool)
+        if total + w >= 2 ** 31 - 1:
+            w = 1 if not batch else d0
+            if total + w >= 2 ** 31 - 1:
+                break
+        total += w
+        ops.append((rng.randrange(len(items)), w))
     return {'t': 'cms', 'depth': depth, 'width': width, 'items': items, 'ops': ops, 'npseed': rng.randrange(2 ** 31),
             'batch': batch, 'kind': kind}
 
@@ -48,12 +61,13 @@ def gen_mixed(rng, thorough):
     c = gen_cms(rng, thorough)
     items = c['items']
     steps = []
+    big = rng.random() < 0.3
     for _ in range(rng.choice([3, 6, 12, 30])):
         u = rng.random()
         if u < 0.4:
-            steps.append(['add', rng.randrange(len(items)), rng.choice([0, 1, 1, 2, 7])])
+            steps.append(['add', rng.randrange(len(items)), rng.choice(BIG_WEIGHTS[:12] if big else [0, 1, 1, 2, 7])])
         elif u < 0.65:
-            steps.append(['batch', [rng.randrange(len(items)) for _ in range(rng.randint(0, 6))], rng.choice([1, 1, 3])])
+            steps.append(['batch', [rng.randrange(len(items)) for _ in range(rng.randint(0, 6))], rng.choice([1, 40000, 65536] if big else [1, 1, 3])])
         else:
             steps.append(['query', rng.randrange(len(items))])
     return {'t': 'mixed', 'depth': c['depth'], 'width': c['width'], 'items': items, 'steps': steps, 'npseed': c['npseed'], 'kind': c['kind']}
